@@ -1,5 +1,7 @@
 (* C05 — Weighted graphs keep per-edge weights and the running total consistent.  Statements only; proofs in Totals.v / WeightedRefine.v.
-   Weights are exact integers (units of 1/4 in the harness): this is the "exactly when representable" clause; rounding is not modelled. *)
+   In the refinement theorems weights are exact integers (units of 1/4 in the harness): this is the "exactly when representable" clause.
+   The floating-point half ("within accumulated rounding error otherwise") is at the end of the file: an executable Flocq model of the running
+   long double total (FloatTotal.v) equal bit for bit to what the C++ computes, with its error bound (FloatTotalProofs.v). *)
 From BG Require Import Base DirectedModel DirectedProofs DirectedSpec UndirectedModel MultiModel WeightedModel MultiSpec Totals MultiRefine WeightedRefine UTotals UWeightedRefine.
 Local Open Scope Z_scope.
 
@@ -88,3 +90,53 @@ Theorem C05_undirected_weight_matrix :
         Val (map (fun i : nat => map (fun j : nat => uw_cell m i j) (seq 0 (size (mg m)))) (seq 0 (size (mg m)))).
 Proof. exact WeightedUsers.uw_weight_matrix_val. Qed.
 Print Assumptions C05_undirected_weight_matrix.
+
+(* ---- the floating-point half.  FloatTotal.fstep mirrors the arithmetic of addEdge / setEdgeWeight / removeEdge / clearEdges statement by statement:
+   weights are binary64, the total is an x87 extended value (64-bit significand), `new - cur` is a double subtraction.  fok = no overflow anywhere.
+   rsum = exact real sum of the stored weights; fbound = accumulated local rounding errors (2^-64 |exact result| per extended addition, plus
+   2^-53 |new - cur| per setEdgeWeight), reset by clearEdges.  The theorems use Flocq and the Coq Reals: their Print Assumptions list the four
+   standard-library axioms of the classical real numbers (ClassicalDedekindReals.sig_forall_dec, sig_not_dec, Classical_Prop.classic,
+   FunctionalExtensionality.functional_extensionality_dep) - named in the trusted base; none is declared here. ---- *)
+From Coq Require Import List Arith Reals.
+From Flocq Require Import Core BinarySingleNaN.
+From BG Require Import FloatTotal FloatTotalProofs.
+Local Close Scope Z_scope.
+Theorem C05_float_total_error :
+  forall (und : bool) (ops : list fop),
+        fok und ops = true ->
+        Rdefinitions.Rle (Rbasic_fun.Rabs (Rdefinitions.Rminus (BinarySingleNaN.B2R (ftot (frun und ops))) (rsum (fw (frun und ops))))) (fbound und ops).
+Proof. exact FloatTotalProofs.ftotal_error. Qed.
+Print Assumptions C05_float_total_error.
+Theorem C05_float_total_error_closed_form :
+  forall (und : bool) (ops : list fop),
+        fok und ops = true ->
+        Rdefinitions.Rle (Rbasic_fun.Rabs (Rdefinitions.Rminus (BinarySingleNaN.B2R (ftot (frun und ops))) (rsum (fw (frun und ops)))))
+          (Rdefinitions.RbaseSymbolsImpl.Rmult
+             (Rdefinitions.Rminus (Rpow_def.pow (Rdefinitions.RbaseSymbolsImpl.Rplus (Rdefinitions.IZR 1) (Raux.bpow Zaux.radix2 (-52))) (length ops))
+                (Rdefinitions.IZR 1)) (fabsinc und ops)).
+Proof. exact FloatTotalProofs.ftotal_error_closed. Qed.
+Print Assumptions C05_float_total_error_closed_form.
+Theorem C05_float_undirected_getter_error :
+  forall (und : bool) (ops : list fop),
+        fok und ops = true ->
+        BinarySingleNaN.is_finite (dbl_of_ext (ftot (frun und ops))) = true ->
+        Rdefinitions.Rle (Rbasic_fun.Rabs (Rdefinitions.Rminus (BinarySingleNaN.B2R (dbl_of_ext (ftot (frun und ops)))) (rsum (fw (frun und ops)))))
+          (Rdefinitions.RbaseSymbolsImpl.Rplus (fbound und ops)
+             (Rdefinitions.RbaseSymbolsImpl.Rplus (Rdefinitions.RbaseSymbolsImpl.Rmult u53 (Rbasic_fun.Rabs (BinarySingleNaN.B2R (ftot (frun und ops)))))
+                (Raux.bpow Zaux.radix2 (-1075)))).
+Proof. exact FloatTotalProofs.fget_error. Qed.
+Print Assumptions C05_float_undirected_getter_error.
+Theorem C05_float_total_exact_on_quarters :
+  forall (und : bool) (ops : list fop),
+        Forall fop_q4 ops ->
+        length ops <= 1024 ->
+        fok und ops = true /\
+        BinarySingleNaN.B2R (ftot (frun und ops)) = rsum (fw (frun und ops)) /\
+        BinarySingleNaN.B2R (dbl_of_ext (ftot (frun und ops))) = rsum (fw (frun und ops)) /\ BinarySingleNaN.is_finite (dbl_of_ext (ftot (frun und ops))) = true.
+Proof. exact FloatTotalProofs.ftotal_exact_q4. Qed.
+Print Assumptions C05_float_total_exact_on_quarters.
+Theorem C05_float_model_is_IEEE_addition :
+  forall (prec emax : Z) (prec_gt_0_ : FLX.Prec_gt_0 prec) (prec_lt_emax_ : BinarySingleNaN.Prec_lt_emax prec emax) (x y : BinarySingleNaN.binary_float prec emax),
+        fadd prec emax x y = BinarySingleNaN.Bplus BinarySingleNaN.mode_NE x y.
+Proof. exact FloatTotalProofs.fadd_Bplus. Qed.
+Print Assumptions C05_float_model_is_IEEE_addition.
